@@ -138,7 +138,8 @@ _dispatch_data_destroy_buffer(const void* buffer, size_t size,
 		mach_vm_address_t vm_addr = (uintptr_t)buffer;
 		mach_vm_deallocate(mach_task_self(), vm_addr, vm_size);
 #else
-		(void)size;
+	} else if (destructor == DISPATCH_DATA_DESTRUCTOR_MUNMAP) {
+		(void)dispatch_assume_zero(munmap((void*)buffer, size));
 #endif
 	} else {
 		if (!queue) {
@@ -227,6 +228,8 @@ dispatch_data_create_f(const void *buffer, size_t size, dispatch_queue_t queue,
 			destructor != DISPATCH_DATA_DESTRUCTOR_NONE &&
 #if HAVE_MACH
 			destructor != DISPATCH_DATA_DESTRUCTOR_VM_DEALLOCATE &&
+#else
+			destructor != DISPATCH_DATA_DESTRUCTOR_MUNMAP &&
 #endif
 			destructor != DISPATCH_DATA_DESTRUCTOR_INLINE) {
 		destructor = ^{ destructor_function((void*)buffer); };
